@@ -68,6 +68,8 @@ def show_sys(eqs):
 
 def classify(obs):
     """observation of the harness for the full system -> (verdict, detail)"""
+    if obs.get("outcome") == "skipped":
+        return "skipped", None
     if obs.get("outcome") in ("abort", "hang"):
         return "diverge", obs
     if obs.get("outcome") == "panic":
@@ -91,6 +93,8 @@ def check_cases(chk, cases, nvars, label):
     nontrivial = 0
     for c, h, o in zip(cases, hcases, obs):
         verdict, detail = classify(o)
+        if verdict == "skipped":
+            continue
         want = "ok" if c["status"] == "ok" else "err"
         structured = any(not isinstance(x, str) and ("p" in x or "f" in x) for e in h["eqs"] for x in e)
         if structured and len(h["eqs"]) >= 1:
